@@ -85,6 +85,24 @@ func (e *c20Env) violate(key, what string) {
 	if e.seen[key] {
 		return
 	}
+	// A held run that the harness itself has given up (its own watchdog: Outcome.Inconclusive)
+	// is no longer the live run the model of this sequence assumes: what the API says about the
+	// DAG from then on is not judged.  A held run that ended without the harness's doing is the
+	// product's, and stays judged.
+	for _, d := range e.dags {
+		if d.Running && d.held != nil {
+			select {
+			case o := <-d.held:
+				d.held <- o
+				if o != nil && o.Inconclusive != "" {
+					e.c.Count("sequences_abandoned_because_the_harness_gave_up_the_held_run", 1)
+					e.abandon = true
+					return
+				}
+			default:
+			}
+		}
+	}
 	e.seen[key] = true
 	ops := e.ops
 	if len(ops) > 30 {
@@ -319,7 +337,7 @@ func (e *c20Env) makeRun(d *c20Dag, kind string) bool {
 			isStep[n] = true
 		}
 		go func() {
-			d.held <- vexec.Run(sp, &vexec.RunOpts{Dir: e.env.Root, KeepDirs: true, Quiet: true, HangBound: 30 * time.Second,
+			d.held <- vexec.Run(sp, &vexec.RunOpts{Dir: e.env.Root, KeepDirs: true, Quiet: true, HangBound: 30 * time.Second, Watchdog: time.Hour,
 				OnRunEnter: func(cs *vexec.Case, step string, _ int, _ map[string]dagsched.NodeState) {
 					if kind == "running" || !isStep[step] {
 						once.Do(func() {
